@@ -458,10 +458,13 @@ fields, or those that are not `@param` lines do -/
 theorem whichReader_render (items : List Item) (hok : ∀ it ∈ items, it.OK)
     (hq : ∀ cs crlf, Item.row cs crlf ∈ items → ∀ c ∈ cs, (cellBytes c).head? ≠ some 34)
     (htab : ∀ cs crlf, Item.row cs crlf ∈ items → 9 ∉ body cs ∧ (body cs).head? ≠ some 34)
-    (short : (render items).length < readLimit) :
+    (short : (render items).length < readLimit) (hbin : (render items).any isBinaryByte = false) :
     whichReader (render items) =
       some (if widthsOK (items.filterMap Item.rawRecord) || ngsOK (items.filterMap Item.rawRecord) then .csv else .old) := by
   unfold whichReader
+  rw [List.take_of_length_le (Nat.le_of_lt short), hbin]
+  simp only [Bool.false_eq_true, if_false]
+  unfold whichText
   rw [detectorInput_short _ short]
   have e44 : csvAll false 44 (render items) = some (items.filterMap Item.rawRecord) := csvAll_render_raw items hok hq
   have e9 : csvAll false 9 (render items) =
@@ -493,7 +496,7 @@ declared records -/
 theorem readSheetBytes_render (items : List Item) (hok : ∀ it ∈ items, it.OK)
     (hq : ∀ cs crlf, Item.row cs crlf ∈ items → ∀ c ∈ cs, (cellBytes c).head? ≠ some 34)
     (htab : ∀ cs crlf, Item.row cs crlf ∈ items → 9 ∉ body cs ∧ (body cs).head? ≠ some 34)
-    (short : (render items).length < readLimit)
+    (short : (render items).length < readLimit) (hbin : (render items).any isBinaryByte = false)
     (hcsv : (widthsOK (items.filterMap Item.rawRecord) || ngsOK (items.filterMap Item.rawRecord)) = true) :
     readSheetBytes (render items) = some (csvBranch (items.filterMap Item.record)) := by
   have hne : (render items).isEmpty = false := by
@@ -509,7 +512,7 @@ theorem readSheetBytes_render (items : List Item) (hok : ∀ it ∈ items, it.OK
       simp [widthsOK, ngsOK] at hcsv
     | cons _ _ => rfl
   unfold readSheetBytes
-  rw [hne, whichReader_render items hok hq htab short, hcsv]
+  rw [hne, whichReader_render items hok hq htab short hbin, hcsv]
   simp only [Bool.false_eq_true, if_false, if_true, bind, Option.bind, csvAll_render items hok]
   rfl
 
